@@ -15,6 +15,9 @@ TRUSTED = ['harness/gen_tables.py (tables regenerated from the working tree)',
            'correspondence harness (parsecorr.py, common.py) over the token-kind alphabet',
            'modelled, not verified: control flow of reader.py, tokens.py, data.py serialisers']
 ASSUMPTIONS = ['CPython str semantics', 'the model driver is the compiled form of the verified definitions']
+LEAN_TARGETS = LEAN_TARGETS + ['TexSoupProofs.Properties.TableSpec']
+# entries of the generated tables that the property's statement names (they stop compiling when a table edit drops them)
+THEOREMS = THEOREMS + ['TexSoup.TableSpec.' + n for n in ['spacer_chars']]
 
 ALPHA = [a for a in gen.TOKEN_ALPHA if '\x00' not in a and '\x7f' not in a] + ['~', '&', '#', '^', '_', '\t', '\r', 'é', '*', '|', '.']
 
